@@ -153,6 +153,8 @@ func init() {
 				add("batch-k1-k1", merge(base, p("k", 1, "k2", 1, "ops", opBatch, "bmax", 2, "vlens", 2, "index", 3, "shards", 1, "r_index", 2, "dfs_lo", 100, "dfs_hi", 180)))
 				// batch, plain write, batch: sfcollide: every later batch either shares the previous time-based id (same millisecond) or gets the next one
 				add("batch-put-batch-k3", merge(base, p("k", 3, "k2", 0, "ops", opPut|opDelete|opBatch, "bmax", 1, "vlens", 1, "index", 3, "shards", 1, "sfcollide", 1)))
+				add("long-keys-batch-k2", merge(base, p("ckeys", 6, "k", 2, "k2", 0, "ops", opPut|opDelete|opBatch, "bmax", 1, "vlens", 1, "index", 1, "shards", 2, "r_index", 2, "dfs_lo", 200, "dfs_hi", 200)))
+				add("xxhash-collision-keys-batch-k2", merge(base, p("ckeys", 5, "k", 2, "k2", 0, "ops", opDelete|opBatch, "bmax", 2, "vlens", 1, "index", 3, "shards", 16, "r_shards", 3)))
 				add("mmap-to-std-k2-k1", merge(base, p("k", 2, "k2", 1, "ops", opPut|opDelete, "index", 3, "shards", 1, "io", 1, "r_io", 1)))
 				add("std-to-mmap-k2-k1", merge(base, p("k", 2, "k2", 1, "ops", opPut|opDelete, "index", 3, "shards", 1, "io", 0, "r_io", 2)))
 				add("merge-k3", merge(base, p("k", 3, "k2", 1, "ops", opPut|opDelete|opMerge, "vlens", 2, "index", 1, "shards", 1)))
@@ -280,6 +282,8 @@ func init() {
 			add("three-keys-1-vs-2-shards", merge(base, p("pool", 3, "k", 3, "ops", opPut, "vlens", 1, "index", 1, "shards", 1, "b_index", 1, "b_shards", 2)))
 			add("skiplist-vs-btree-keyfamily1", merge(base, p("ckeys", 1, "k", 3, "ops", opPut|opDelete, "vlens", 1, "index", 2, "shards", 1, "b_index", 1, "b_shards", 2)))
 			add("skiplist-vs-hashmap-keyfamily4", merge(base, p("ckeys", 4, "k", 3, "ops", opPut|opDelete, "vlens", 1, "index", 2, "shards", 2, "b_index", 3, "b_shards", 1)))
+			add("hashmap-vs-btree-xxhash-collision-keys-batch", merge(base, p("ckeys", 5, "k", 2, "ops", opPut|opDelete|opBatch, "vlens", 1, "index", 3, "shards", 16, "b_index", 1, "b_shards", 1)))
+			add("skiplist-vs-hashmap-long-keys", merge(base, p("ckeys", 6, "k", 3, "ops", opPut|opDelete, "vlens", 1, "index", 2, "shards", 1, "b_index", 3, "b_shards", 3)))
 			if tier != "quick" {
 				add("three-keys-skiplist-2-vs-hashmap-3-shards", merge(base, p("pool", 3, "k", 4, "ops", opPut|opDelete, "vlens", 1, "index", 2, "shards", 2, "b_index", 3, "b_shards", 3)))
 			}
@@ -493,6 +497,8 @@ func init() {
 				add("batch-merge-restart", merge(base, p("k", 1, "ops", opBatch, "bmax", 2, "tailops", opMerge|opRestart, "after", 1, "powerloss", 0)))
 				add("skiplist-s2-sync-batch", merge(base, p("k", 1, "preput", 1, "ops", opBatch, "bmax", 2, "bsync", 1, "index", 2, "shards", 2, "after", 1)))
 				add("btree-mmap-overflow-bmax2", merge(base, p("k", 1, "ops", opBatch, "bmax", 2, "dfs_lo", 110, "dfs_hi", 150, "after", 1, "powerloss", 0, "io", 1, "index", 1)))
+				add("xxhash-collision-keys-bmax2", merge(base, p("ckeys", 5, "preput", 1, "k", 1, "ops", opBatch, "bmax", 2, "after", 1, "powerloss", 0, "dfs_lo", 150, "dfs_hi", 150)))
+				add("long-keys-overflow-bmax3", merge(base, p("ckeys", 6, "preput", 1, "k", 1, "ops", opBatch, "bmax", 3, "after", 1, "powerloss", 0, "dfs_lo", 200, "dfs_hi", 330)))
 			} else {
 				add("overflow-bmax3-pre2", merge(base, p("preput", 2, "k", 1, "ops", opBatch, "bmax", 3, "dfs_lo", 120, "dfs_hi", 170, "after", 1, "powerloss", 0)))
 				add("overflow-bmax3-powerloss", merge(base, p("preput", 1, "k", 1, "ops", opBatch, "bmax", 3, "dfs_lo", 120, "dfs_hi", 150, "after", 1)))
@@ -684,6 +690,7 @@ func init() {
 			// DataFileSize smaller than some (or all) records: oversized records sit alone in their files, the merge
 			// output has several files and the hint indexes records larger than the limit
 			add("records-larger-than-dfs-k3", merge(base, p("k", 3, "ops", opPut|opDelete, "vlens", 3, "vbig", 25, "dfs_lo", 15, "dfs_hi", 45)))
+			add("long-keys-k3", merge(base, p("ckeys", 6, "k", 3, "ops", opPut|opDelete, "vlens", 1, "dfs_lo", 80, "dfs_hi", 200)))
 			add("cfgsweep-k2", merge(base, p("cfgsweep", 2, "k", 2, "ops", opPut|opDelete, "vlens", 1, "dfs_lo", 40, "dfs_hi", 40)))
 			} else {
 				add("k4", merge(base, p("k", 4, "ops", opPut|opDelete)))
